@@ -404,36 +404,80 @@ class RealTree(object):
         for i in range(0, n - 1):
             self.idle[i] = n - i
         self.idle[0] = n - 2
+        self.num_nodes = n
+        self.used = set()
 
     def insert(self, key, g0, g1, g2, a0, a1, a2):
         node = np.array([key, g0, g1, g2, a0, a1, a2], dtype=np.float64)
         i = self.V._pop(self.idle)
+        self.used.add(int(i))
         self.root = self.V._insert_into_tree(self.vals, self.nodes, self.root, i, node)
 
     def delete(self, key):
         self.root, deleted = self.V._delete_from_tree(self.vals, self.nodes, self.root, float(key))
         self.V._push(self.idle, deleted)
+        return int(deleted)
+
+    def max_grad(self, key, ang, grad):
+        return float(self.V._max_grad_in_status_struct(self.vals, self.nodes, self.root, float(key), float(ang),
+                                                       float(grad)))
 
     def visible(self, key, ang, grad):
-        m = self.V._max_grad_in_status_struct(self.vals, self.nodes, self.root, float(key), float(ang), float(grad))
-        return bool(m <= grad)
+        return bool(self.max_grad(key, ang, grad) <= grad)
+
+    def snapshot(self):
+        """every row of the two arrays that has ever been written: NIL (last row, id -1), the dummy root and the
+        rows handed out by the idle stack — (id, key, max, red, left, right, parent, g0, g1, g2, a0, a1, a2)"""
+        rows = []
+        for i in [-1, 0] + sorted(self.used):
+            v = self.vals[i]
+            t = self.nodes[i]
+            rows.append((i, hx(v[0]), hx(v[7]), int(t[0] == 0), int(t[1]), int(t[2]), int(t[3])) +
+                        tuple(hx(x) for x in v[1:7]))
+        return rows
+
+
+def snapshot_points(ops):
+    """indices of the insert/delete operations after which the whole node arrays are compared with the concrete
+    tree model: every one for short sequences, about 48 evenly spaced ones (and the last) otherwise"""
+    upd = [j for j, o in enumerate(ops) if o[0] in ('I', 'D')]
+    if not upd:
+        return set()
+    step = max(1, -(-len(upd) // 48))
+    return set(upd[::step]) | {upd[-1]}
+
+
+def tree_capacity(ops):
+    return sum(1 for o in ops if o[0] == 'I') + 10
 
 
 def run_tree_real(ops):
+    """-> (codes, detail): codes as compared with the abstract structure (10 / 20 / visible bit / -1);
+    detail = per operation what the concrete tree model must reproduce: new root (and freed row) of every
+    insert / delete, the float returned by _max_grad_in_status_struct, and snapshots of the node arrays"""
     cap = sum(1 for o in ops if o[0] == 'I')
     t = RealTree(cap)
+    snaps = snapshot_points(ops)
     res = []
-    for o in ops:
+    detail = []
+    for j, o in enumerate(ops):
         try:
             if o[0] == 'I':
                 t.insert(*o[1:]); res.append(10)
+                detail.append(('I', int(t.root)))
             elif o[0] == 'D':
-                t.delete(o[1]); res.append(20)
+                d = t.delete(o[1]); res.append(20)
+                detail.append(('D', int(t.root), d))
             else:
-                res.append(1 if t.visible(o[1], o[2], o[3]) else 0)
+                m = t.max_grad(o[1], o[2], o[3])
+                res.append(1 if m <= o[3] else 0)
+                detail.append(('Q', hx(m)))
         except ValueError:
             res.append(-1)
-    return res
+            detail.append(('ERR',))
+        if j in snaps:
+            detail.append(('S', t.snapshot()))
+    return res, detail
 
 
 def run_tree_oracle(ops):
@@ -466,6 +510,77 @@ def tree_line(ops):
         toks.append(o[0])
         toks += [hx(v) for v in o[1:]]
     return ' '.join(toks)
+
+
+def ctree_line(ops):
+    """the same operations for the CONCRETE tree model (coq/C05/Tree.v), with S = snapshot markers"""
+    snaps = snapshot_points(ops)
+    toks = []
+    n = 0
+    for j, o in enumerate(ops):
+        toks.append(o[0])
+        toks += [hx(v) for v in o[1:]]
+        n += 1
+        if j in snaps:
+            toks.append('S'); n += 1
+    return ' '.join(['ctree', str(tree_capacity(ops)), str(n)] + toks)
+
+
+def _canon_hex(tok):
+    return float.fromhex(tok).hex()
+
+
+def parse_ctree(out):
+    """model output of a ctree line -> the same structure as run_tree_real's detail"""
+    res = []
+    for tok in out.split():
+        if tok.startswith('I:'):
+            res.append(('I', int(tok[2:])))
+        elif tok.startswith('D:'):
+            a, b = tok[2:].split(':')
+            res.append(('D', int(a), int(b)))
+        elif tok.startswith('Q:'):
+            res.append(('Q', _canon_hex(tok[2:])))
+        elif tok in ('NF', 'QERR'):
+            res.append(('ERR',))
+        elif tok.startswith('S:'):
+            rows = []
+            for row in tok[2:].split(';'):
+                f = row.split(',')
+                rows.append((int(f[0]), _canon_hex(f[1]), _canon_hex(f[2]), int(f[3]), int(f[4]), int(f[5]), int(f[6])) +
+                            tuple(_canon_hex(x) for x in f[7:13]))
+            res.append(('S', rows))
+        else:
+            res.append((tok,))              # STOP / ERR ..: the model left its domain
+    return res
+
+
+ROW_FIELDS = ['id', 'key', 'max_grad', 'red', 'left', 'right', 'parent', 'grad0', 'grad1', 'grad2', 'ang0', 'ang1', 'ang2']
+
+
+def describe_ctree_diff(real, model, ops):
+    """first difference between the real tree's trace and the concrete model's"""
+    snaps = snapshot_points(ops)
+    labels = []
+    for j, o in enumerate(ops):
+        labels.append((j, 'result'))
+        if j in snaps:
+            labels.append((j, 'snapshot'))
+    for i, (a, b) in enumerate(zip(real, model)):
+        if a == b:
+            continue
+        j, what = labels[i] if i < len(labels) else (None, '?')
+        if a[0] == 'S' and b[0] == 'S':
+            for ra, rb in zip(a[1], b[1]):
+                if ra != rb:
+                    f = next(k for k in range(len(ra)) if ra[k] != rb[k])
+                    return j, 'node arrays after op #%d %r: row %d field %s real %s model %s' % (
+                        j, ops[j], ra[0], ROW_FIELDS[f], ra[f], rb[f])
+            return j, 'node arrays after op #%d: different set of rows' % j
+        return j, 'op #%d %r: real %r model %r' % (j, ops[j] if j is not None else None, a, b)
+    if len(real) != len(model):
+        return None, 'trace lengths differ: real %d model %d' % (len(real), len(model))
+    return None, None
 
 
 def gen_tree_ops(rng, pattern, n, gpat):
@@ -611,7 +726,7 @@ def check_tree_case(ctx, case, real):
         ctx.violation('correspondence', 'cannot drive the status tree of viewshed.py directly: %s' % real, dict(case, ops=[]))
         return False
     exp = run_tree_oracle(ops)
-    for j, (a, b) in enumerate(zip(real, exp)):
+    for j, (a, b) in enumerate(zip(real[0], exp)):
         if a != b:
             ctx.violation('oracle', 'status tree: after %d operations (%s) the real tree answers %s for op %r, brute force '
                           'over the live nodes says %s' % (j, case['pattern'], a, ops[j], b),
@@ -635,8 +750,24 @@ def compare_tree_model(ctx, pending):
     if ctx.model is None or not pending:
         return
     outs = ctx.model.run([tree_line([tuple(o) for o in c['ops']]) for c, _ in pending])
-    for (case, real), mo in zip(pending, outs):
+    couts = ctx.model.run([ctree_line([tuple(o) for o in c['ops']]) for c, _ in pending])
+    for (case, (real, detail)), mo, co in zip(pending, outs, couts):
         ctx.traces += 1
+        # (i) the real tree vs the CONCRETE tree model of coq/C05/Tree.v: roots, freed rows, the floats returned by
+        # the query and the complete node arrays (keys, payloads, cached maxima, colours, links, NIL row)
+        ops_t = [tuple(o) for o in case['ops']]
+        if co.startswith('ERR'):
+            ctx.violation('correspondence', 'concrete tree model returned %s' % co[:80], dict(case))
+        else:
+            cm = parse_ctree(co)
+            j, why = describe_ctree_diff(detail, cm, ops_t)
+            if why is not None:
+                ctx.count('treeops/concrete-model-differs')
+                ctx.violation('correspondence', 'status tree vs concrete red-black tree model (Tree.v): %s' % why,
+                              dict(case, op_index=j))
+            else:
+                ctx.count('treeops/snapshots-compared', sum(1 for d in detail if d[0] == 'S'))
+        # (ii) the real tree vs the ABSTRACT status structure
         try:
             mv = [int(t) for t in mo.split()]
         except ValueError:
